@@ -10,7 +10,6 @@ use crate::props::hist::{gate, Gate};
 use crate::refmodel::armor::{self, ALPHABET};
 use crate::refmodel::build;
 use crate::refmodel::layout::{set_bits, Prop, SUPPORTED};
-use crate::refmodel::seq::{Model, Pred, Seen};
 use crate::util::{esc, Mix};
 use proptest::prelude::*;
 
@@ -35,22 +34,14 @@ fn decode_exceeds(bytes: &[u8]) -> bool {
     }
 }
 
-fn seen(o: &Outcome) -> Seen {
-    match o {
-        Outcome::Complete(_) => Seen::Complete,
-        Outcome::Incomplete(_) => Seen::Incomplete,
-        _ => Seen::Rejected,
-    }
-}
-
 fn check_history(lines: &[Line], rec: &mut Rec) -> Verdict {
     let mut ps = STD.new_parser();
     let mut pa = ALLOC.new_parser();
     let mut pn = NONE.new_parser();
     // a std parser that is fed only the lines the no-allocator build did not reject for capacity
     let mut ps_view = STD.new_parser();
-    // the reassembly model of the no-allocator parser's own view, to know how much it has accumulated
-    let mut model = Model::new();
+    // bytes the no-allocator parser holds for its open group, tracked from its own results
+    let mut held = 0usize;
     let mut notes = Vec::new();
     let mut cap_events = 0;
     for (i, l) in lines.iter().enumerate() {
@@ -66,23 +57,24 @@ fn check_history(lines: &[Line], rec: &mut Rec) -> Verdict {
         if os.canon() != oa.canon() {
             return Verdict::fail(format!("line {}: std and alloc builds agree; std: {}", i, os.brief()), format!("alloc: {}", oa.brief()));
         }
-        // independent capacity rule, from the input and the model of what `none` holds
+        // independent capacity rule, from the input and from what `none` has accepted so far
         let g = gate(&l.bytes);
         let mut sentence_level = false;
         let mut decode_level = false;
-        let mut pred = None;
-        if let Gate::Pass(f) | Gate::StarInField(f) = &g {
-            if f.payload.len() > CAP_SENTENCE {
+        let fields = match &g {
+            Gate::Pass(f) | Gate::StarInField(f) => Some(f.clone()),
+            _ => None,
+        };
+        let mut prospective = held;
+        if let Some(f) = &fields {
+            let first = f.fragment_number == 1 && f.fragment_number < f.num_fragments;
+            let fragment = f.num_fragments != 1;
+            prospective = if first { f.payload.len() } else { held + f.payload.len() };
+            if f.payload.len() > CAP_SENTENCE || (fragment && !first && prospective > CAP_SENTENCE) {
+                // (if the line would have been rejected by the sequencing rules anyway, treating it
+                // as a capacity rejection changes nothing: either way it must be an error in `none`
+                // and leaves no trace in the std parser it is withheld from)
                 sentence_level = true;
-            }
-            if let Gate::Pass(f) = &g {
-                let p = model.predict(f.num_fragments, f.fragment_number, f.message_id, &f.payload);
-                let held = model.open.as_ref().map(|g| g.payload.len()).unwrap_or(0);
-                let continues = matches!(p, Pred::Continue | Pred::Deliver(_)) || (matches!(p, Pred::Unspecified(_)) && model.open.is_some());
-                if continues && held + f.payload.len() > CAP_SENTENCE {
-                    sentence_level = true;
-                }
-                pred = Some((p, f.clone()));
             }
         }
         if sentence_level {
@@ -94,7 +86,6 @@ fn check_history(lines: &[Line], rec: &mut Rec) -> Verdict {
                     on.brief(),
                 );
             }
-            // not fed to the std 'view' parser: for `none` this line must be as if it never arrived
             if notes.len() < 8 {
                 notes.push(format!("[{}] over capacity -> none: {}", i, crate::util::clip(&on.brief(), 60)));
             }
@@ -102,21 +93,33 @@ fn check_history(lines: &[Line], rec: &mut Rec) -> Verdict {
         }
         let ov = ps_view.parse(&l.bytes, l.decode);
         rec.evals += 1;
+        // keep `held` in step with what `none` did
+        if let Some(f) = &fields {
+            let fragment = f.num_fragments != 1;
+            match &on {
+                Outcome::Incomplete(_) => held = prospective,
+                Outcome::Complete(_) if fragment => held = 0,
+                Outcome::Err(_) if fragment && l.decode && f.fragment_number >= f.num_fragments => {
+                    // ambiguous: rejected by sequencing, or accepted as final and the group's payload
+                    // did not decode. Ask a fresh no-allocator parser fed the same prefix, decoding off.
+                    let mut p2 = NONE.new_parser();
+                    for pl in &lines[..i] {
+                        p2.parse(&pl.bytes, pl.decode);
+                    }
+                    if p2.parse(&l.bytes, false).is_ok() {
+                        held = 0;
+                    }
+                }
+                _ => {}
+            }
+        }
         // decode-level capacity: judged on the payload the message is decoded from (the line's own,
         // or the reassembled one as the std build fed the same accepted lines delivers it)
         if l.decode {
-            if let (Outcome::Complete(s), Gate::Pass(f)) = (&ov, &g) {
+            if let (Outcome::Complete(s), Some(f)) = (&ov, &fields) {
                 if let Some(bytes) = armor::unarmor(&s.data, f.fill as usize) {
                     decode_level = decode_exceeds(&bytes);
                 }
-            }
-        }
-        if let Some((p, f)) = &pred {
-            model.commit(p, f.num_fragments, f.fragment_number, f.message_id, &f.payload, seen(&on));
-        } else if let Gate::StarInField(_) = &g {
-            if on.is_ok() {
-                model.unknown = true;
-                model.open = None;
             }
         }
         if decode_level {
@@ -124,9 +127,6 @@ fn check_history(lines: &[Line], rec: &mut Rec) -> Verdict {
             rec.class("capacity-exceeded-at-decode-level");
             match (&ov, &on) {
                 (_, Outcome::Err(_)) => {}
-                (Outcome::Err(_), o) => {
-                    return Verdict::fail(format!("line {}: an error, as in the std build: {}", i, ov.brief()), o.brief());
-                }
                 (_, o) => {
                     return Verdict::fail(
                         format!("line {}: the no-allocator build rejects with an error a message exceeding its fixed capacities ({} data bytes / {} text characters); it never truncates", i, CAP_BINARY, CAP_TEXT),
